@@ -13,7 +13,8 @@ Inductive jphase :=
 | JQueued            (* pushed to the worker pool, not started *)
 | JRunning           (* EpollJob::run: handle_one_request in progress *)
 | JDeleted           (* close path: EPOLL_CTL_DEL done *)
-| JDropped.          (* close path: stream dropped, `closed` not yet stored *)
+| JDropped           (* close path: stream dropped, `closed` not yet stored *)
+| JStored.           (* close path: `closed` stored, the record not yet handed back to the loop *)
 
 Record conn := {
   k_rec : alloc;             (* the Handle record *)
@@ -25,7 +26,7 @@ Record conn := {
   k_peer_closed : bool;      (* the client has closed its side *)
   k_jobs : list jphase;      (* jobs for this connection in the pool (queued or executing) *)
   k_in_batch : bool;         (* an event for it is in the batch epoll_wait last returned, not yet looked at *)
-  k_stale : bool;            (* pushed to stale_ptrs in the current batch *)
+  k_grave : bool;            (* in the graveyard: handed back by its worker, not yet freed by the loop (fix F25) *)
   k_answered : nat;          (* requests answered so far *)
   k_taken : list nat;        (* history: for every job that processed a request, the request number it took *)
 }.
@@ -42,13 +43,14 @@ Inductive elabel :=
 | LClientClose (c : nat)
 | LWait (batch : list nat)         (* epoll_wait returns these connections (besides, possibly, the listener) *)
 | LEvent (c : nat) (o : outcome)   (* the loop looks at c's event: closed? / CAS on in_flight *)
-| LFree (c : nat)                  (* end of batch: drop(Box::from_raw) of a stale pointer *)
+| LFree (c : nat)                  (* after the events of a batch: drop(Box::from_raw) of a record found in the graveyard *)
 | LBatchEnd
 | LJobStart (c : nat)
 | LRearm (c : nat)                 (* keep-alive: in_flight.store(false) *)
 | LDel (c : nat)                   (* close path: EPOLL_CTL_DEL *)
 | LStreamDrop (c : nat)            (* close path: the stream is dropped (teardown hook / close) *)
-| LClosedStore (c : nat).          (* close path: closed.store(true) *)
+| LClosedStore (c : nat)           (* close path: closed.store(true) *)
+| LGrave (c : nat).                (* close path: the record is pushed to the graveyard (the job's last step) *)
 
 Definition ready (k : conn) : bool := k_registered k && (Nat.ltb 0 (k_pending k) || k_peer_closed k).
 
@@ -71,21 +73,21 @@ Definition with_conn (s : estate) (c : nat) (f : conn -> option conn) : option e
 Definition upd_jobs (k : conn) (js : list jphase) : conn :=
   {| k_rec := k_rec k; k_stream := k_stream k; k_registered := k_registered k; k_in_flight := k_in_flight k;
      k_closed := k_closed k; k_pending := k_pending k; k_peer_closed := k_peer_closed k; k_jobs := js;
-     k_in_batch := k_in_batch k; k_stale := k_stale k; k_answered := k_answered k; k_taken := k_taken k |}.
+     k_in_batch := k_in_batch k; k_grave := k_grave k; k_answered := k_answered k; k_taken := k_taken k |}.
 
 (* replace the first job in phase [p] by [q] (or remove it when q = None) *)
 Fixpoint move_job (js : list jphase) (p : jphase) (q : option jphase) : option (list jphase) :=
   match js with
   | [] => None
   | j :: r =>
-      if match j, p with JQueued, JQueued | JRunning, JRunning | JDeleted, JDeleted | JDropped, JDropped => true | _, _ => false end
+      if match j, p with JQueued, JQueued | JRunning, JRunning | JDeleted, JDeleted | JDropped, JDropped | JStored, JStored => true | _, _ => false end
       then Some (match q with Some q' => q' :: r | None => r end)
       else match move_job r p q with Some r' => Some (j :: r') | None => None end
   end.
 
 Definition new_conn (add_ok : bool) : conn :=
   {| k_rec := if add_ok then ALive else AFreed; k_stream := add_ok; k_registered := add_ok; k_in_flight := false;
-     k_closed := false; k_pending := 0; k_peer_closed := false; k_jobs := []; k_in_batch := false; k_stale := false;
+     k_closed := false; k_pending := 0; k_peer_closed := false; k_jobs := []; k_in_batch := false; k_grave := false;
      k_answered := 0; k_taken := [] |}.
 
 Definition all_distinct (l : list nat) : bool :=
@@ -98,12 +100,12 @@ Definition step (s : estate) (l : elabel) : option estate :=
       with_conn s c (fun k => if k_peer_closed k then None else
         Some {| k_rec := k_rec k; k_stream := k_stream k; k_registered := k_registered k; k_in_flight := k_in_flight k;
                 k_closed := k_closed k; k_pending := S (k_pending k); k_peer_closed := false; k_jobs := k_jobs k;
-                k_in_batch := k_in_batch k; k_stale := k_stale k; k_answered := k_answered k; k_taken := k_taken k |})
+                k_in_batch := k_in_batch k; k_grave := k_grave k; k_answered := k_answered k; k_taken := k_taken k |})
   | LClientClose c =>
       with_conn s c (fun k =>
         Some {| k_rec := k_rec k; k_stream := k_stream k; k_registered := k_registered k; k_in_flight := k_in_flight k;
                 k_closed := k_closed k; k_pending := k_pending k; k_peer_closed := true; k_jobs := k_jobs k;
-                k_in_batch := k_in_batch k; k_stale := k_stale k; k_answered := k_answered k; k_taken := k_taken k |})
+                k_in_batch := k_in_batch k; k_grave := k_grave k; k_answered := k_answered k; k_taken := k_taken k |})
   | LWait batch =>
       match e_loop s with
       | EBatch => None
@@ -115,7 +117,7 @@ Definition step (s : estate) (l : elabel) : option estate :=
                                 if existsb (Nat.eqb i) batch then
                                   {| k_rec := k_rec k; k_stream := k_stream k; k_registered := k_registered k; k_in_flight := k_in_flight k;
                                      k_closed := k_closed k; k_pending := k_pending k; k_peer_closed := k_peer_closed k; k_jobs := k_jobs k;
-                                     k_in_batch := true; k_stale := k_stale k; k_answered := k_answered k; k_taken := k_taken k |}
+                                     k_in_batch := true; k_grave := k_grave k; k_answered := k_answered k; k_taken := k_taken k |}
                                 else k)
                              (combine (seq 0 (length (e_conns s))) (e_conns s));
                        e_loop := EBatch |}
@@ -135,7 +137,7 @@ Definition step (s : estate) (l : elabel) : option estate :=
                       k_closed := k_closed k; k_pending := k_pending k; k_peer_closed := k_peer_closed k;
                       k_jobs := match actual with ODispatched => k_jobs k ++ [JQueued] | _ => k_jobs k end;
                       k_in_batch := false;
-                      k_stale := match actual with OStale => true | _ => k_stale k end;
+                      k_grave := k_grave k;
                       k_answered := k_answered k; k_taken := k_taken k |}
             else None)
       end
@@ -143,18 +145,21 @@ Definition step (s : estate) (l : elabel) : option estate :=
       match e_loop s with
       | EWaiting => None
       | EBatch =>
+          (* the graveyard is emptied after the loop over the events of the batch *)
+          if negb (forallb (fun k => negb (k_in_batch k)) (e_conns s)) then None else
           with_conn s c (fun k =>
-            if k_stale k then
+            if k_grave k then
               Some {| k_rec := AFreed; k_stream := k_stream k; k_registered := k_registered k; k_in_flight := k_in_flight k;
                       k_closed := k_closed k; k_pending := k_pending k; k_peer_closed := k_peer_closed k; k_jobs := k_jobs k;
-                      k_in_batch := k_in_batch k; k_stale := false; k_answered := k_answered k; k_taken := k_taken k |}
+                      k_in_batch := k_in_batch k; k_grave := false; k_answered := k_answered k; k_taken := k_taken k |}
             else None)
       end
   | LBatchEnd =>
       match e_loop s with
       | EWaiting => None
       | EBatch =>
-          if forallb (fun k => negb (k_in_batch k) && negb (k_stale k)) (e_conns s)
+          (* (records handed back after the graveyard was emptied wait for the next batch) *)
+          if forallb (fun k => negb (k_in_batch k)) (e_conns s)
           then Some {| e_conns := e_conns s; e_loop := EWaiting |} else None
       end
   | LJobStart c =>
@@ -165,7 +170,7 @@ Definition step (s : estate) (l : elabel) : option estate :=
             Some (match k_pending k with
                   | S p => {| k_rec := k_rec k; k_stream := k_stream k; k_registered := k_registered k; k_in_flight := k_in_flight k;
                               k_closed := k_closed k; k_pending := p; k_peer_closed := k_peer_closed k; k_jobs := js;
-                              k_in_batch := k_in_batch k; k_stale := k_stale k; k_answered := S (k_answered k);
+                              k_in_batch := k_in_batch k; k_grave := k_grave k; k_answered := S (k_answered k);
                               k_taken := k_taken k ++ [k_answered k] |}
                   | O => upd_jobs k js
                   end)
@@ -177,7 +182,7 @@ Definition step (s : estate) (l : elabel) : option estate :=
         | Some js =>
             Some {| k_rec := k_rec k; k_stream := k_stream k; k_registered := k_registered k; k_in_flight := false;
                     k_closed := k_closed k; k_pending := k_pending k; k_peer_closed := k_peer_closed k; k_jobs := js;
-                    k_in_batch := k_in_batch k; k_stale := k_stale k; k_answered := k_answered k; k_taken := k_taken k |}
+                    k_in_batch := k_in_batch k; k_grave := k_grave k; k_answered := k_answered k; k_taken := k_taken k |}
         | None => None
         end)
   | LDel c =>
@@ -186,7 +191,7 @@ Definition step (s : estate) (l : elabel) : option estate :=
         | Some js =>
             Some {| k_rec := k_rec k; k_stream := k_stream k; k_registered := false; k_in_flight := k_in_flight k;
                     k_closed := k_closed k; k_pending := k_pending k; k_peer_closed := k_peer_closed k; k_jobs := js;
-                    k_in_batch := k_in_batch k; k_stale := k_stale k; k_answered := k_answered k; k_taken := k_taken k |}
+                    k_in_batch := k_in_batch k; k_grave := k_grave k; k_answered := k_answered k; k_taken := k_taken k |}
         | None => None
         end)
   | LStreamDrop c =>
@@ -195,16 +200,25 @@ Definition step (s : estate) (l : elabel) : option estate :=
         | Some js =>
             Some {| k_rec := k_rec k; k_stream := false; k_registered := k_registered k; k_in_flight := k_in_flight k;
                     k_closed := k_closed k; k_pending := k_pending k; k_peer_closed := k_peer_closed k; k_jobs := js;
-                    k_in_batch := k_in_batch k; k_stale := k_stale k; k_answered := k_answered k; k_taken := k_taken k |}
+                    k_in_batch := k_in_batch k; k_grave := k_grave k; k_answered := k_answered k; k_taken := k_taken k |}
         | None => None
         end)
   | LClosedStore c =>
       with_conn s c (fun k =>
-        match move_job (k_jobs k) JDropped None with
+        match move_job (k_jobs k) JDropped (Some JStored) with
         | Some js =>
             Some {| k_rec := k_rec k; k_stream := k_stream k; k_registered := k_registered k; k_in_flight := k_in_flight k;
                     k_closed := true; k_pending := k_pending k; k_peer_closed := k_peer_closed k; k_jobs := js;
-                    k_in_batch := k_in_batch k; k_stale := k_stale k; k_answered := k_answered k; k_taken := k_taken k |}
+                    k_in_batch := k_in_batch k; k_grave := k_grave k; k_answered := k_answered k; k_taken := k_taken k |}
+        | None => None
+        end)
+  | LGrave c =>
+      with_conn s c (fun k =>
+        match move_job (k_jobs k) JStored None with
+        | Some js =>
+            Some {| k_rec := k_rec k; k_stream := k_stream k; k_registered := k_registered k; k_in_flight := k_in_flight k;
+                    k_closed := k_closed k; k_pending := k_pending k; k_peer_closed := k_peer_closed k; k_jobs := js;
+                    k_in_batch := k_in_batch k; k_grave := true; k_answered := k_answered k; k_taken := k_taken k |}
         | None => None
         end)
   end.
@@ -225,6 +239,7 @@ Definition safe (s : estate) (l : elabel) : bool :=
   | LDel c => rec_live s c
   | LStreamDrop c => rec_live s c && stream_open s c (* Box::from_raw(stream_ptr): exactly once *)
   | LClosedStore c => rec_live s c
+  | LGrave c => rec_live s c                         (* handle.graveyard is read from the record *)
   | _ => true
   end.
 
@@ -252,6 +267,8 @@ Definition all_ended (s : estate) : bool :=
   | EWaiting => forallb (fun k => match k_jobs k with [] => negb (k_registered k) | _ => false end) (e_conns s)
   | EBatch => false
   end.
+(* nothing waits in the graveyard *)
+Definition graveyard_empty (s : estate) : bool := forallb (fun k => negb (k_grave k)) (e_conns s).
 Definition live_records (s : estate) : nat :=
   length (filter (fun k => match k_rec k with ALive => true | AFreed => false end) (e_conns s)).
 Definition open_streams (s : estate) : nat := length (filter k_stream (e_conns s)).
